@@ -17,7 +17,9 @@ RULE = ("seeded random move programs (device calls, parallel groups, gates, fill
         "the same process; traced kernels that read the spec themselves included; quick = a pairwise-covering set of 12 of the 128 routes per program, thorough = all "
         "128; each compiled kernel is executed by the event-logging interpreter and compared with the Lean reference "
         "evaluator of the source and with the other routes. Separate streams carry the program features behind the known "
-        "findings (positional top_hat_cz buffers; callee with a return inside a branch under inlining). "
+        "findings (positional top_hat_cz buffers; callee with a return inside a branch under inlining); programs with filled "
+        "grids (vacate / fill / shift chosen by a run-time condition, used by fill, gates and measure) are compared route against "
+        "route. "
         "non-trivial = run with >= 2 events; distinct = distinct (program, arguments, route).")
 TRUSTED = ["modelled, not verified: all of kirin's passes (fold, inline, unroll, CSE/DCE, type inference, verification) — they are "
            "exercised on every route, not proved to be event preserving; Model/Lang.lean is the meaning of 'evaluating the "
@@ -107,6 +109,77 @@ def worker(task):
         except Exception as e:  # noqa: BLE001
             outs2 = None
     return (src_fns_key, route, "ran", outs2, outs)
+
+
+FILLED_SRCS = ['''
+@move
+def main(n: int, m: int, b: bool):
+    zone = spec.get_static_trap(zone_id="A")
+    target = zone
+    if b:
+        target = filled.vacate(zone, [(0, 0)])
+    init.fill([target])
+    gate.top_hat_cz(zone)
+    return n
+''', '''
+@move
+def pick(zone: grid.Grid[Any, Any], b: bool):
+    t = filled.fill(zone, [(0, 1)])
+    if b:
+        t = filled.vacate(zone, [(1, 1), (0, 0)])
+    return t
+
+@move
+def main(n: int, m: int, b: bool):
+    zone = grid.from_positions([0.0, 4.0, 8.0], [0.0, 3.0])
+    t = pick(zone, b)
+    init.fill([t, filled.shift(t, 1.0, 0.5)])
+    gate.local_rz(0.5, t)
+    c = 0
+    for k in range(n):
+        c = c + 1
+        init.fill([filled.vacate(spec.get_static_trap(zone_id="B"), [(k, 0)])])
+    measure.measure((t,))
+    return c
+''']
+
+
+def canon_obj(o):
+    """route-independent text of an event operand (filled grids included)"""
+    if isinstance(o, (list, tuple)):
+        return "[" + ", ".join(canon_obj(x) for x in o) + "]"
+    if hasattr(o, "positions"):
+        vac = getattr(o, "vacancies", None)
+        return f"{type(o).__name__}({sorted(o.positions)}{'' if vac is None else ' vac=' + str(sorted(vac))})"
+    return repr(o)
+
+
+def filled_worker(task):
+    key, src, route, argsets = task
+    from bloqade.shuttle.prelude import move
+    from bloqade.shuttle.passes.fold import AggressiveUnroll
+    from . import c06 as C06
+    fold, aggr, tinf, verify, with_spec, unroll, rerun = route
+    C06.SPEC_SLOT = SPEC
+    opts = f"fold={fold}, aggressive={aggr}, typeinfer={tinf}, verify={verify}" + (", arch_spec=_C06.SPEC_SLOT" if with_spec else "")
+    hdr = L.HDR.replace("from bloqade.shuttle import action, gate, init, measure, schedule, spec",
+                        "from bloqade.shuttle import action, filled, gate, init, measure, schedule, spec") + "from harness.props import c06 as _C06\n"
+    s = hdr + src.replace("@move\ndef main(", f"@move({opts})\ndef main(")
+    try:
+        mod = T.load_source(s, "c04f")
+        mt = mod.main
+        if unroll:
+            AggressiveUnroll(move).fixpoint(mt)
+        if rerun:
+            kw = {"arch_spec": SPEC} if with_spec else {}
+            move.run_pass(mt, fold=fold, aggressive=aggr, typeinfer=tinf, verify=verify, **kw)
+    except Exception as e:  # noqa: BLE001
+        return (key, route, None, f"{type(e).__name__}: {ANSI.sub('', str(e))[:120]}")
+    outs = []
+    for a in argsets:
+        r = EV.run_with_events(mt, SPEC, a, plain=with_spec)
+        outs.append("err" if r.error is not None else "; ".join(f"{e[0]} {canon_obj(list(e[1:]))}" for e in r.events))
+    return (key, route, outs, None)
 
 
 def route_name(r):
@@ -241,6 +314,30 @@ def run(ctx):
                 if events_of(got) != events_of(ref):
                     ctx.fail(c2, f"events on route [{route_name(route)}] differ from evaluating the source: got={events_of(got)[:300]} "
                                  f"source={events_of(ref)[:300]}", key=k)
+    # ---- programs with filled grids (not expressible in the Lean reference language): every route against the plain one
+    ftasks = [(i, src, rt, [(2, 0, True), (1, 0, False), (0, 1, True)]) for i, src in enumerate(FILLED_SRCS)
+              for rt in (all_routes() if thorough else pairwise_routes(ctx.rng))]
+    fres = {}
+    with mp.get_context("fork").Pool(min(16, mp.cpu_count())) as pool:
+        for key, route, outs, err in pool.imap_unordered(filled_worker, ftasks, chunksize=2):
+            fres[(key, route)] = (outs, err)
+    plain_route = (False, False, True, True, False, False, False)
+    for i, src in enumerate(FILLED_SRCS):
+        ref = fres.get((i, plain_route)) or filled_worker((i, src, plain_route, [(2, 0, True), (1, 0, False), (0, 1, True)]))[2:]
+        if ref[0] is None or any(o == "err" for o in ref[0]):
+            raise HarnessFault(f"filled-grid program {i} does not run on the plain route: {ref}")
+        for (k, route), (outs, err) in sorted(fres.items()):
+            if k != i:
+                continue
+            ctx.count("filled_route_runs")
+            case = {"stream": "filled", "source": src, "route": route_name(route)}
+            if outs is None:
+                ctx.count("filled_route_rejected")
+                continue
+            for a, got, want in zip([(2, 0, True), (1, 0, False), (0, 1, True)], outs, ref[0]):
+                if got != want:
+                    ctx.fail(dict(case, args=list(a)), f"filled-grid program: events on route [{route_name(route)}] differ from the "
+                                                       f"unfolded run-time-spec route: got={got[:300]} want={want[:300]}")
     for key in list(progs)[:2]:
         p = progs[key]
         ctx.sample({"stream": p["stream"], "source": p["src"][len(L.HDR):][:900], "args": [list(a) for a in p["args"]],
